@@ -1,7 +1,49 @@
-(* C05 — placeholder statement until DeterminismP.v is written (replaced later in this session) *)
+(* C05 — The report does not depend on the schedule: N threads equals one thread.
+   Statements only. Proofs/DeterminismP.v over the dispatch-loop model (Model/Sched.v); Model/TaskSem.v for the per-task
+   semantics. Fragment of the property: no interrupt, no killed worker, no AbortSuite / AbortAllTests / failing backend
+   (the only context flag raised is "something failed") and --stop-on-failure off.
+
+   What is proved: the decision (run / skip with its reason) and the result of EVERY task are the same in all runs of a
+   project, for all thread counts and all interleavings, provided the result a task ends with is a function [sem] of the
+   task and of the decision — which is the shape of Model/TaskSem.task_sem (it takes no schedule) and is checked against the
+   real runner for every task of every co-simulated run. Since task_sem also gives the events of the task, every task puts
+   the same events on the queue in all runs.
+   What is NOT proved (partial): that the report writer turns every dependency-respecting interleaving of those per-task
+   event lists into the same rank-sorted report; the check compares the N-thread and 1-thread reports on every run. *)
 From Coq Require Import List Arith Bool.
-From LCC Require Import Model.Sched Proofs.SchedP.
-Theorem C05_dependents_see_results : forall g sof s t,
-  decide g sof s t JHandle = Run -> forall d, In d (t_succ (get_task g t)) -> result_of s d = Some ResSuccess.
-Proof. exact run_only_if_dependencies_succeeded. Qed.
-Print Assumptions C05_dependents_see_results.
+Import ListNotations.
+From LCC Require Import Base.Util Model.Proj Model.Sched Model.Fixture Model.TaskSem Proofs.SchedP Proofs.DeterminismP.
+
+Theorem C05_results_schedule_independent : forall g rk (W : wf g rk) (sem : nat -> mode -> tres) n1 n2 ms1 ms2 s1 s2,
+  1 <= n1 -> 1 <= n2 -> quiet ms1 -> quiet ms2 ->
+  run g n1 false (init g n1) ms1 = Some s1 -> consistent_from g sem n1 (init g n1) ms1 ->
+  run g n2 false (init g n2) ms2 = Some s2 -> consistent_from g sem n2 (init g n2) ms2 ->
+  forall t r1 r2, t < length g -> result_of s1 t = Some r1 -> result_of s2 t = Some r2 -> r1 = r2.
+Proof. intros g rk W sem. exact (results_schedule_independent g rk W sem). Qed.
+Print Assumptions C05_results_schedule_independent.
+
+Theorem C05_decisions_schedule_independent : forall g rk (W : wf g rk) (sem : nat -> mode -> tres) n1 n2 ms1 ms2 s1 s2,
+  1 <= n1 -> 1 <= n2 -> quiet ms1 -> quiet ms2 ->
+  run g n1 false (init g n1) ms1 = Some s1 -> consistent_from g sem n1 (init g n1) ms1 ->
+  run g n2 false (init g n2) ms2 = Some s2 -> consistent_from g sem n2 (init g n2) ms2 ->
+  forall t md1 md2, t < length g -> In (t, md1) (running s1) -> In (t, md2) (running s2) -> md1 = md2.
+Proof. intros g rk W sem. exact (decisions_schedule_independent g rk W sem). Qed.
+Print Assumptions C05_decisions_schedule_independent.
+
+(* the canonical decision and result of a task exist at most once: they are determined along the dependency graph *)
+Theorem C05_canonical_unique : forall g rk (W : wf g rk) (sem : nat -> mode -> tres) k t, rk t < k -> t < length g ->
+  forall md r md' r', canon g sem t md r -> canon g sem t md' r' -> md = md' /\ r = r'.
+Proof. intros g rk W sem. exact (canon_unique g rk W sem). Qed.
+Print Assumptions C05_canonical_unique.
+
+(* non-vacuity: two different interleavings of a three-task graph with different thread counts, same results *)
+Example C05_witness :
+  let g := [mkTask KSuiteBegin [5] [] []; mkTask KTest [5; 6] [0] []; mkTask KTest [5; 7] [0; 1] []] in
+  let ms1 := [MTake 0 Run; MFinish 0 ResSuccess; MMain 0; MTake 1 Run; MFinish 1 (ResFailure (RTaskFailed 1)); MMain 1;
+              MTake 2 (Skip (Some (RTaskFailed 1))); MFinish 2 (ResSkipped (Some (RTaskFailed 1)))] in
+  let ms2 := [MTake 0 Run; MFinish 0 ResSuccess; MMain 0; MTake 1 Run; MFlag FFailure; MFinish 1 (ResFailure (RTaskFailed 1));
+              MMain 1; MTake 2 (Skip (Some (RTaskFailed 1))); MFinish 2 (ResSkipped (Some (RTaskFailed 1)))] in
+  (exists s1, run g 1 false (init g 1) ms1 = Some s1 /\ result_of s1 2 = Some (ResSkipped (Some (RTaskFailed 1)))) /\
+  (exists s2, run g 3 false (init g 3) ms2 = Some s2 /\ result_of s2 2 = Some (ResSkipped (Some (RTaskFailed 1)))) /\
+  quiet ms1 /\ quiet ms2.
+Proof. repeat split; try (eexists; split; vm_compute; reflexivity); vm_compute; reflexivity. Qed.
